@@ -577,5 +577,10 @@ fn _close_upvalues<T>(vm: &mut Vm<T>, top: *const Value) -> ExecutionResult {
 
 pub fn close_upvalues<T>(vm: &mut Vm<T>) -> ExecutionResult {
     let top = vm.runtime_data.value_stack.top_location();
-    _close_upvalues(vm, top)
+    _close_upvalues(vm, top)?;
+    // CloseUpvalue stands in for the Pop of a captured local at the end of its scope: the slot
+    // has to go too, otherwise the next captured local of the same scope is not on top when its
+    // CloseUpvalue runs (its upvalue then stays open, pointing into the dead part of the stack)
+    vm.stack_pop();
+    Ok(())
 }
